@@ -139,4 +139,46 @@ theorem poleDesign_real (c : ℝ) :
   simp only [onePoleLP, C13.mk, trim_cons_real, C13.trim]
   simp [hnR]
 
+/-! ### a cutoff per sample -/
+
+theorem polePoint_real (c : ℝ) : polePoint c = poleR (2 - Real.cos c) := by
+  simp [polePoint, poleR]
+
+theorem envVarLoop_real (m : ℝ) (cs us : List ℝ) :
+    envVarLoop m cs us = onePoleVarFrom m (cs.map poleRadius) us := by
+  induction cs generalizing m us with
+  | nil => cases us <;> rfl
+  | cons c cs ih =>
+    cases us with
+    | nil => rfl
+    | cons u us =>
+      have hy : (C13.c1 - polePoint c) * u - (-polePoint c) * m =
+          (TrigField.ofInt 1 - poleRadius c) * u + poleRadius c * m := by
+        rw [polePoint_real, poleRadius_real]
+        simp only [c1_real, real_ofInt, Int.cast_one]
+        ring
+      simp only [envVarLoop, onePoleVarFrom, List.map_cons, hy]
+      rw [ih]
+
+/-- a cutoff that does not change (and lasts as long as the input) gives the constant-cutoff recursion -/
+theorem onePoleVarFrom_const (r m : ℝ) (n : Nat) (us : List ℝ) (h : us.length ≤ n) :
+    onePoleVarFrom m (List.replicate n r) us = onePoleFrom (1 - r) r m us := by
+  induction us generalizing m n with
+  | nil => cases n <;> rfl
+  | cons u us ih =>
+    cases n with
+    | zero => simp at h
+    | succ n =>
+      simp only [List.replicate_succ, onePoleVarFrom, onePoleFrom, real_ofInt, Int.cast_one]
+      rw [ih _ n (by simpa using h)]
+
+theorem onePoleVarFrom_length (m : ℝ) (rs us : List ℝ) :
+    (onePoleVarFrom m rs us).length = min rs.length us.length := by
+  induction rs generalizing m us with
+  | nil => cases us <;> simp [onePoleVarFrom]
+  | cons r rs ih =>
+    cases us with
+    | nil => simp [onePoleVarFrom]
+    | cons u us => simp [onePoleVarFrom, ih, Nat.succ_min_succ]
+
 end ALV.C20
